@@ -446,11 +446,25 @@ def q3(ctx):
     for d in falses:
         ok = any((cond[0] == "true" and role_str(cond[1]).startswith("contains(")) or (cond[0] == "false" and role_str(cond[1]).startswith("insert(")) for e, cond in C.conditions_at(ib, d["bb"]))
     trues = [d for d in ib.defs().get(0, []) if d["kind"] == "assign" and ib.role_of_rvalue(d["rv"]) == ("const", "true")]
-    ctx.check(len(falses) == 1 and ok and len(trues) == 1, "is-bijection", "is_bijection: false on a repeated value, true after all pairs", "is_bijection's structure changed", where_of(ib))
-    ck = [c for c in ib.calls if c.callee and c.callee.name in ("contains", "insert") and not ib.blocks[c.bb]["cleanup"]]
+    alt = False
+    if not (len(falses) == 1 and ok and len(trues) == 1):
+        # adaptor form: iter().all(|(_, y)| seen.insert(y)) — true iff every value is new to the set
+        r_ = strip_role(ib.role_of_local(0))
+        if isinstance(r_, tuple) and r_[0] == "call" and r_[1] == "all" and len(r_[3]) == 2:
+            cl_ = C._closure_of_role(crate, r_[3][1])
+            if hasattr(cl_, "calls"):
+                cr = strip_role(cl_.role_of_local(0))
+                alt = isinstance(cr, tuple) and cr[0] == "call" and cr[1] == "insert" and ("HashSet" in (cl_.call_at[cr[4]].callee.impl_self or "") if cr[4] in cl_.call_at and cl_.call_at[cr[4]].callee else False)
+    ctx.check((len(falses) == 1 and ok and len(trues) == 1) or alt, "is-bijection", "is_bijection: false on a repeated value, true after all pairs", "is_bijection's structure changed", where_of(ib))
+    ck = [c for sub_ in ib.all_bodies() for c in sub_.calls if c.callee and c.callee.name in ("contains", "insert") and not sub_.blocks[c.bb]["cleanup"]]
     def _is_value(r_):
         return comp(strip_role(r_))[1] == "1" or role_str(r_).endswith(".1") or ((role_mentions_call(r_, "values_immut") or role_mentions_call(r_, "values")) and not role_mentions_call(r_, "keys"))
-    okv = all(_is_value(ib.role_of_operand(c.args[1])) for c in ck) and len(ck) in (1, 2) and any(c.callee.name == "insert" for c in ck)
+    def _val_role(c):
+        r__ = c.body.role_of_operand(c.args[1])
+        sr = strip_role(r__)
+        # a closure parameter pattern `|(_, y)|` over self.iter(): component .1 of the element
+        return r__
+    okv = all(_is_value(_val_role(c)) or (c.body is not ib and role_str(_val_role(c)).endswith(".1")) for c in ck) and len(ck) in (1, 2) and any(c.callee.name == "insert" for c in ck)
     ctx.check(okv, "is-bijection-on-values", "is_bijection tracks the value component", "is_bijection tracks %s" % [role_str(ib.role_of_operand(c.args[1])) for c in ck], where_of(ib))
     # contains_key / len / is_empty
     ckb = m(crate, "contains_key")
